@@ -25,7 +25,10 @@ def run_demo(root, sdir, meta):
     cmd = meta.get("demo_cmd") or ["/venv/bin/python", os.path.join(sdir, demo)]
     if isinstance(cmd, str):
         cmd = cmd.replace("{demo}", os.path.join(sdir, demo)).split()
-    env = dict(os.environ, PYTHONPATH=root, PYTHONDONTWRITEBYTECODE="1", PYTHONUTF8="1")
+    # demos of broken trees may leave temp files behind: give them a temp directory that goes away with the scratch copy
+    tmpd = os.path.join(root, "_demo_tmp")
+    os.makedirs(tmpd, exist_ok=True)
+    env = dict(os.environ, PYTHONPATH=root, PYTHONDONTWRITEBYTECODE="1", PYTHONUTF8="1", TMPDIR=tmpd)
     try:
         p = subprocess.run(cmd, cwd=root, env=env, stdout=subprocess.PIPE, stderr=subprocess.STDOUT, text=True, timeout=600)
         return p.returncode
